@@ -323,7 +323,8 @@ func driverMain(args []string) int {
 			// The worker died: the journal names the case it was in.
 			idx, note := readJournal(sr.journal)
 			tail := tailFile(sr.stderr, 60)
-			killedByUs := strings.Contains(tail, "VERIF-WATCHDOG")
+			// (the marker line is followed by a goroutine dump that is longer than the tail: the flag decides)
+			killedByUs := sr.stallQuit || strings.Contains(tail, "VERIF-WATCHDOG")
 			what := "worker process died (" + e.err.Error() + ")"
 			if sr.cmd.ProcessState != nil {
 				if ws, ok := sr.cmd.ProcessState.Sys().(syscall.WaitStatus); ok && ws.Signaled() {
